@@ -1,11 +1,17 @@
 #!/bin/bash
 # usage: try_seed.sh <ID> <patch.diff> [tier]   — applies a seeded change to /repo, runs the check, reverts.
 set -u
-id="$1"; patch="$2"; tier="${3:-quick}"
+id="$1"; patch="$(readlink -f "$2")"; tier="${3:-quick}"
 cd /repo || exit 2
-git diff --quiet || { echo "/repo has uncommitted changes"; exit 2; }
-git apply "$patch" || { echo "patch does not apply"; exit 2; }
+[ -z "$(git status --porcelain --untracked-files=no)" ] || { echo "/repo has uncommitted changes"; exit 2; }
+if ! git apply "$patch" 2>/dev/null; then
+  git apply --3way "$patch" >/dev/null 2>&1 || { echo "patch does not apply (even 3-way)"; git reset -q --hard; exit 2; }
+  git reset -q            # unstage, keep working-tree change
+  git diff > "$patch.rebased"; cp "$patch.rebased" "$patch"
+  echo "(patch rebased onto current /repo HEAD)"
+fi
 ( cd /verif && ./verif.sh "$id" "$tier" ) 2>&1 | cut -c1-400 | tail -${TAIL:-15}
 rc=${PIPESTATUS[0]}
-git -C /repo checkout -- . ; git -C /repo clean -fdq -- internal toml runtime 2>/dev/null
+git -C /repo checkout -q -- . ; git -C /repo clean -fdq -- internal toml runtime 2>/dev/null
+rm -f "$patch.rebased"
 echo "check rc=$rc"
